@@ -100,7 +100,7 @@ func checkerConstruction(c *Check, a *Anchors, rule string) {
 		c.Fn(fb)
 		stores := false
 		for _, d := range c.P.dryFields() {
-			if d.ctor == fb {
+			if d.ctors[fb] {
 				stores = true // a field of the checker holds a value that differs between dry=true and dry=false
 			}
 		}
@@ -255,7 +255,22 @@ func c04RollbackEffective(c *Check, a *Anchors) {
 		if up == nil || oe == nil {
 			continue
 		}
-		writes := mutSites(c.P, up)
+		// the writes of IsUpToDate: its own and those of the helpers of the package it delegates the recording to
+		var writes []*MutSite
+		helpers := map[*types.Func]bool{}
+		for _, g := range c.P.groupOf(up, 2) {
+			if g.Pkg.PkgPath != PkgFingerprint {
+				continue
+			}
+			writes = append(writes, mutSites(c.P, g)...)
+			for _, call := range callsIn(g, true) {
+				if fn, ok := callee(g.Info(), call).(*types.Func); ok && fn.Pkg() != nil && fn.Pkg().Path() == PkgFingerprint {
+					if statePathHelper(c, fn) {
+						helpers[fn] = true // method of the checker or plain function of the package that names the state file
+					}
+				}
+			}
+		}
 		if len(writes) == 0 {
 			c.OK("rollback-effective", name, up.Decl.Pos(), "IsUpToDate writes no state; nothing to roll back")
 			continue
@@ -263,25 +278,29 @@ func c04RollbackEffective(c *Check, a *Anchors) {
 		n++
 		c.Fn(up)
 		c.Fn(oe)
-		helpers := map[*types.Func]bool{}
-		for _, call := range callsIn(up, true) {
-			if fn, ok := callee(up.Info(), call).(*types.Func); ok && fn.Pkg() != nil && fn.Pkg().Path() == PkgFingerprint {
-				if statePathHelper(c, fn) {
-					helpers[fn] = true // method of the checker or plain function of the package that names the state file
-				}
-			}
-		}
 		ok := false
-		for _, s := range mutSites(c.P, oe) {
-			for _, arg := range s.Call.Args {
-				ast.Inspect(arg, func(nd ast.Node) bool {
-					if call, isCall := nd.(*ast.CallExpr); isCall {
-						if fn, isFn := callee(oe.Info(), call).(*types.Func); isFn && helpers[fn] {
-							ok = true
-						}
+		for _, g := range c.P.groupOf(oe, 2) {
+			if g.Pkg.PkgPath != PkgFingerprint {
+				continue
+			}
+			for _, s := range mutSites(c.P, g) {
+				for _, arg := range s.Call.Args {
+					// the removed path: a call of the path helper, or a variable assigned from one
+					exprs := []ast.Expr{arg}
+					if v := varOf(g.Info(), arg); v != nil && !v.IsField() {
+						exprs = append(exprs, defsOf(g.Info(), g.Body, v)...)
 					}
-					return true
-				})
+					for _, e := range exprs {
+						ast.Inspect(e, func(nd ast.Node) bool {
+							if call, isCall := nd.(*ast.CallExpr); isCall {
+								if fn, isFn := callee(g.Info(), call).(*types.Func); isFn && helpers[fn] {
+									ok = true
+								}
+							}
+							return true
+						})
+					}
+				}
 			}
 		}
 		c.Decide(ok, "rollback-effective", name, oe.Decl.Pos(), "OnError removes the state file named by the same path helper IsUpToDate writes to",
@@ -444,6 +463,9 @@ func methodResolution(c *Check, a *Anchors, rule string) {
 				if got == "helper" {
 					continue // judged below
 				}
+				if strings.Contains(got, "cmp.Or") && allMethodArgsCmpOr(fb) {
+					continue // cmp.Or(task.Method, Taskfile.Method): the first non-empty one, i.e. the task's own when it is set
+				}
 				empty, known := false, false
 				for k, v := range p.Asg {
 					if strings.HasPrefix(k, "eq(field:Task.Method,") && strings.HasSuffix(k, `"")`) {
@@ -469,6 +491,23 @@ func methodResolution(c *Check, a *Anchors, rule string) {
 	}
 	// resolver helpers: every path returns the task's own method when it is set, the Taskfile's otherwise
 	for hf := range helpers {
+		if hfn, ok := hf.Object().(*types.Func); ok {
+			if hb := c.P.DeclOf(hfn); hb != nil {
+				rets := returnsOf(hb.Body)
+				all := len(rets) > 0
+				for _, r := range rets {
+					if len(r.Results) != 1 || !isMethodCmpOr(hb.Info(), r.Results[0]) {
+						all = false
+					}
+				}
+				if all {
+					n++
+					c.Fn(hb)
+					c.OK(rule, "method@"+hf.String(), hf.Pos(), "cmp.Or(task.Method, Taskfile.Method): the task's own method when it is set, the Taskfile's otherwise")
+					continue
+				}
+			}
+		}
 		hp := &PathEnum{Fn: hf, MaxRevisit: 0, NoInline: true}
 		hp.Run()
 		c.Paths += len(hp.Paths)
@@ -590,4 +629,38 @@ func helperDryCallers(c *Check, h *FuncBody, arg ast.Expr) string {
 		}
 	}
 	return ""
+}
+
+// isMethodCmpOr: the expression is cmp.Or(<task>.Method, <Taskfile>.Method) — the first non-empty of the two, in that order.
+func isMethodCmpOr(info *types.Info, e ast.Expr) bool {
+	call, ok := ast.Unparen(e).(*ast.CallExpr)
+	if !ok || !isFunc(callee(info, call), "cmp", "", "Or") || len(call.Args) != 2 {
+		return false
+	}
+	return fieldSel(info, call.Args[0], PkgAst, "Task", "Method") && fieldSel(info, call.Args[1], PkgAst, "Taskfile", "Method")
+}
+
+// allMethodArgsCmpOr: every method argument of WithMethod / NewSourcesChecker in fb that is a cmp.Or call has that form.
+func allMethodArgsCmpOr(fb *FuncBody) bool {
+	info := fb.Info()
+	n, all := 0, true
+	for _, call := range callsIn(fb, false) {
+		obj := callee(info, call)
+		if !(isFunc(obj, PkgFingerprint, "", "WithMethod") || isFunc(obj, PkgFingerprint, "", "NewSourcesChecker")) || len(call.Args) == 0 {
+			continue
+		}
+		arg := call.Args[0]
+		if v := varOf(info, arg); v != nil && !v.IsField() {
+			if d := singleDef(info, fb.Body, v); d != nil {
+				arg = d
+			}
+		}
+		if c2, ok := ast.Unparen(arg).(*ast.CallExpr); ok && isFunc(callee(info, c2), "cmp", "", "Or") {
+			n++
+			if !isMethodCmpOr(info, arg) {
+				all = false
+			}
+		}
+	}
+	return n > 0 && all
 }
